@@ -437,6 +437,10 @@ func (e *Exec) call(instr ssa.Instruction, common *ssa.CallCommon, st *State) Va
 	for _, a := range common.Args {
 		args = append(args, e.val(a))
 	}
+	if f := common.StaticCallee(); f != nil && f.String() == "(*sync.Once).Do" && len(args) == 2 {
+		e.onceDo(common, args, st, instr.Pos())
+		return Val{}
+	}
 	return e.doCall(common, fnv, recv, args, st, instr.Pos())
 }
 
@@ -649,7 +653,7 @@ func (e *Exec) havocAll(st *State) {
 }
 
 func (e *Exec) isZapPrivateComp(n string) bool {
-	if strings.HasPrefix(n, "T:") || n == "$clk" || strings.HasPrefix(n, "G:") || n == "$held" || n == "$closed" {
+	if strings.HasPrefix(n, "T:") || n == "$clk" || strings.HasPrefix(n, "G:") || n == "$held" || n == "$closed" || n == "$once" {
 		return true
 	}
 	if n == "E:uint8" {
@@ -789,6 +793,15 @@ func (sc *Scope) resolveModifies(item string) []modLoc {
 		v := sc.eval(ex)
 		c.compSort["$held"] = "(Array Ref Bool)"
 		return []modLoc{{comp: "$held", ref: v.T}}
+	}
+	if strings.HasPrefix(item, "once(") && strings.HasSuffix(item, ")") {
+		ex, err := parseExpr(item[5 : len(item)-1])
+		if err != nil {
+			sc.fail("modifies %s: %v", item, err)
+		}
+		v := sc.eval(ex)
+		c.compSort["$once"] = "(Array Ref Bool)"
+		return []modLoc{{comp: "$once", ref: v.T}}
 	}
 	if i := strings.Index(item, "["); i > 0 && strings.HasSuffix(item, "]") {
 		if _, ok := c.CS.Ghosts[item[:i]]; ok {
@@ -1327,6 +1340,8 @@ func (e *Exec) builtinAppend(common *ssa.CallCommon, args []Val, st *State, pos 
 		}
 		c.factUnder(st.pc, fmt.Sprintf("(forall ((k!a %s)) (! (=> (and %s %s) (= (select %s %s) (ite %s (select %s %s) %s))) :pattern ((sidx %s k!a))))",
 			is, c.le(c.idx(0), "k!a"), c.lt("k!a", newlen), newC, dst, c.lt("k!a", slen), oldC, src, srcv, r))
+		// appending nothing writes nothing
+		c.factUnder(st.pc, fmt.Sprintf("(=> (= %s %s) (= %s %s))", xlen, c.idx(0), newC, oldC))
 		// frame
 		if !isStruct(et) {
 			lo := c.add(fmt.Sprintf("(sl_off %s)", r), slen)
